@@ -32,7 +32,7 @@ from sa import astq, intervals
 from sa.blockeval import Unknown
 from sa.consteval import Folder
 from sa.evalx import BlockEvalX, ClassStub, Stub
-from sa.model import AnalysisError, norm
+from sa.model import norm
 
 T1, T2 = "tertiary", "tertiary_v2"
 
